@@ -1,3 +1,5 @@
 import Usual.Common
-/-! Model driver for C17 (stub: not built yet). -/
-def main : IO Unit := IO.println "stub"
+import Usual.C17.Run
+/-! Model driver for C17: same op lines as harness/C17/h.c, one output line per input line. -/
+def main : IO Unit :=
+  Usual.runDriver () (fun _ line => ((), Usual.C17.Run.runLine line))
